@@ -163,9 +163,14 @@ func SpecFor(id string) PropSpec {
 	case "C11":
 		return one(readProfile(), "C11-read")
 	case "C14":
-		return one(snapshotProfile(), "C14-mix")
+		p := snapshotProfile()
+		p.PZeroMsgSize = 0.03
+		p.WConf = 3
+		return one(p, "C14-mix")
 	case "C15":
-		return one(d, "C15-default")
+		p := DefaultProfile()
+		p.PUniform = 1
+		return one(p, "C15-uniform")
 	case "C16":
 		return one(flowProfile(), "C16-flow")
 	case "C17":
